@@ -76,7 +76,9 @@ def cases(tier, seed):
     rest = [p for p in other if p not in twins]
     rng2 = gen.rng_for(seed, PROP, "same-text")
     rng2.shuffle(rest)
-    st_pairs = twins + rest[: 120 if tier == "quick" else 3000]
+    # ... and every pair related by inheritance (a generic Entry looks at a plasmid, stays in the caller's hands, and a typed
+    # part is asked about the same plasmid)
+    st_pairs = twins + rest[: 120 if tier == "quick" else 3000] + related
     for j in range(0, len(st_pairs), 25):
         out.append({"kind": "same-text", "pairs": st_pairs[j:j + 25], "seed": seed})
     for j in range(0, 40 if tier == "quick" else 2000, 10):
@@ -130,6 +132,11 @@ def probes(seed, cls):
     if len(out) > 2:
         out.append(out[1].lower())
     out.append(out[0][: len(out[0]) // 2].lower() + out[0][len(out[0]) // 2:])
+    # an own instance spoilt by a further copy of the site that opens the structure, inside it (an illegal site: refused)
+    rng = gen.rng_for(seed, PROP, "probe", gen.class_name(cls), "third-site")
+    inst = gen.instance(rng, cls.structure(), run_max=12)
+    s = inst[: len(inst) // 2] + inst[: len(cls.cutter.site)] + inst[len(inst) // 2:] + gen.rand_dna(rng, 12)
+    out.append(rot_left(s, rng.randrange(len(s))))
     return out
 
 
@@ -145,7 +152,12 @@ def probe_texts(seed, cls):
     return _texts[key]
 
 
-def answer(seed, cls, texts):
+AGAIN = "the same entity answers differently when asked again"
+
+
+def answer(seed, cls, texts, keep=None):
+    """the answers of `cls` about each text.  `keep`: a list that receives every entity made, so that the caller can keep
+    them alive while later queries run (entities of several classes on equal records, alive at the same time)"""
     from Bio.Seq import Seq
     from moclo.record import CircularRecord
     from Bio.SeqRecord import SeqRecord
@@ -153,6 +165,8 @@ def answer(seed, cls, texts):
     out = []
     for s in texts:
         e = cls(CircularRecord(Seq(s), "p"))
+        if keep is not None:
+            keep.append(e)
         try:
             if e.is_valid():
                 ans = [True, str(e.overhang_start()), str(e.overhang_end()), str(e.target_sequence().seq)]
@@ -160,6 +174,12 @@ def answer(seed, cls, texts):
                 ans = [False]
         except Exception as ex:
             ans = ["raised", type(ex).__name__]
+        try:
+            again = e.is_valid()
+        except Exception as ex:
+            again = "raised " + type(ex).__name__
+        if ans[0] in (True, False) and again is not ans[0]:
+            ans.append([AGAIN, ans[0], again])      # judged on its own: a fresh interpreter would say the same
         # the same plasmid handed over as a plain SeqRecord, without any annotation (the library then assumes a plasmid) and
         # declared circular: verdict and overhangs (a plain record cannot be rotated, so no target)
         for ann in (None, {"topology": "circular"}):
@@ -271,6 +291,13 @@ def judge(ctx, seed, history, qname, got, base, extra=None):
         ctx.count("c06_related_pairs")
     if any(b[0] is True for b in base) and any(b[0] is False for b in base):
         ctx.nontrivial([history, qname])
+    for where, answers in (("in a fresh interpreter", base), ("after validating %s" % (history,), got["answers"])):
+        bad = [(i, x) for i, a in enumerate(answers) for x in a if isinstance(x, list) and x and x[0] == AGAIN]
+        if bad:
+            ctx.violation("same-entity-answers-differently-when-asked-again:%s-then-%s" % (bad[0][1][1], bad[0][1][2]),
+                          "%s, %s(record).is_valid() on probe %d says %s and then %s on the same entity" % (where, qname, bad[0][0], bad[0][1][1], bad[0][1][2]),
+                          history=history, query=qname, seed=seed, probe=bad[0][0])
+            break
     if got["answers"] != base:
         rel = next((r for r in rels if r.startswith("ancestor")), rels[0] if rels else "dynamic-subclass")
         if extra:
@@ -301,9 +328,13 @@ def execute(mat, ctx):
             base = in_child(lambda: answer(seed, B, ta))
             def alternate():
                 out = []
-                for t in ta:
-                    answer(seed, A, [t])                 # the primer looks at the text ...
-                    out.extend(answer(seed, B, [t]))     # ... and the query is about that very text, next
+                alive = []
+                for j, t in enumerate(ta):
+                    # the primer looks at the text ... (every other primer entity stays alive while the query runs: two entities
+                    # of different classes on equal records at the same time; the others are dropped at once, so that their
+                    # memory may be handed to the next object)
+                    answer(seed, A, [t], keep=alive if j % 2 == 0 else None)
+                    out.extend(answer(seed, B, [t], keep=alive if j % 2 == 0 else None))     # ... and the query is about that very text, next
                 return {"answers": out, "stale": stale(B)}
 
             got = in_child(alternate)
